@@ -129,6 +129,47 @@ std::size_t const_ops(const V& v, const V& other)
     return acc;
 }
 
+// every const operation on a shared ContiguousElement; `other` is another protected element, `v` a protected vector
+template <class V>
+std::size_t const_elem_ops(const typename V::value_type& e, const typename V::value_type& other, const V& v)
+{
+    using E = typename V::value_type;
+    std::size_t acc = 0;
+    g_op = "element get_allocator";
+    (void)e.get_allocator();
+    g_op = "element comparisons";
+    acc += (e == other) + (e != other) + (e < other) + (e <= other) + (e > other) + (e >= other) + (e == e);
+    acc += (e == v[0]) + (e != v[0]) + (e < v[0]) + (e <= v[0]) + (e > v[0]) + (e >= v[0]);
+    g_op = "const_reference from const element";
+    {
+        typename V::const_reference r{e};
+        acc += r.size_in_bytes() + static_cast<std::size_t>(r.data_end() - r.data_begin()) + (r == v[0]) + (v[0] == e);
+    }
+    const bool t = g_track.exchange(false);  // the copies own fresh, unprotected memory
+    g_op = "element copy construction";
+    {
+        E c{e};
+        acc += (c == e);
+    }
+    g_op = "element copy construction with allocator";
+    {
+        E c{e, e.get_allocator()};
+        acc += (c == e);
+        // a second copy must see the same source (a copy that moved from its source would have emptied it)
+        E d{e, e.get_allocator()};
+        acc += 2 * (d == c);
+    }
+    g_op = "element copy assignment from const element";
+    {
+        E c{other};
+        c = e;
+        acc += (c == e);
+    }
+    g_track = t;
+    g_op = "done";
+    return acc;
+}
+
 template <class V, class Make, class Fill>
 int run(const char* name, Make make, Fill fill)
 {
@@ -136,9 +177,24 @@ int run(const char* name, Make make, Fill fill)
     Holder<V> b([&] { return make(); });
     fill(*a.v, 3);
     fill(*b.v, 2);
+    using E = typename V::value_type;
+    // two standalone elements, the objects and their storage in protected pages as well
+    const bool with_elems = !a.v->empty() && !b.v->empty();
+    std::unique_ptr<Holder<E>> ea, eb;
+    if (with_elems)
+    {
+        ea = std::make_unique<Holder<E>>([&] { return E{std::as_const(*a.v)[0]}; });
+        eb = std::make_unique<Holder<E>>([&] { return E{std::as_const(*b.v)[b.v->size() - 1]}; });
+    }
+    auto all_ops = [&]
+    {
+        std::size_t r = const_ops<V>(*a.v, *b.v);
+        if (with_elems) r += 1000003 * const_elem_ops<V>(*ea->v, *eb->v, *a.v);
+        return r;
+    };
     std::size_t expect = 0;
     {
-        expect = const_ops<V>(*a.v, *b.v);  // unprotected reference run
+        expect = all_ops();  // unprotected reference run
     }
 #ifdef C19_THREADS
     g_track = false;
@@ -147,19 +203,24 @@ int run(const char* name, Make make, Fill fill)
     for (int t = 0; t < 16; ++t)
         th.emplace_back([&] {
             for (int k = 0; k < 20; ++k)
-                if (const_ops<V>(*a.v, *b.v) != expect) ++bad;
+                if (all_ops() != expect) ++bad;
         });
     for (auto& x : th) x.join();
     std::printf("threads %s results_differ=%d\n", name, bad.load());
     if (bad) std::printf("!viol C19:concurrent-readers-observed-different-results cfg=%s\n", name);
 #else
     protect(PROT_READ);
-    const std::size_t got = const_ops<V>(*a.v, *b.v);
+    const std::size_t got = all_ops();
     protect(PROT_READ | PROT_WRITE);
-    std::printf("ro %s ops=9 same=%d\n", name, got == expect);
+    std::printf("ro %s ops=%d same=%d\n", name, with_elems ? 15 : 9, got == expect);
     if (got != expect) std::printf("!viol C19:result-changed-under-write-protection cfg=%s\n", name);
 #endif
     g_op = "teardown";
+    if (with_elems)
+    {
+        ea->v->~E();
+        eb->v->~E();
+    }
     a.v->~V();
     b.v->~V();
     return 0;
